@@ -1256,6 +1256,23 @@ example : GenRT.round_towardZero.run (fun rs => roundM int32 .absolute rs Dy.tru
 
 end roundfour_tie
 
+section roundfour_eqvec
+variable {K : Type} [Zero K] [Neg K] [Sub K] [Mul K] [LT K] [LE K] [DecidableLT K] [DecidableLE K]
+
+/-- **the vector comparisons regenerated from float_cmp.cc** (`Gen/C17EqVec.lean`: size test, loop bounds, the component
+    comparison called with which style / operands / epsilon, the helper each `eq_t<vector, style>` derives from) **are the model's
+    `eqVec` / `eqFV`**, about which `vec_eq_conj`, `fvec_eq_conj`, `vec_trichotomy`, `fp_vec_*` … are stated — every scalar
+    type, every length -/
+theorem vec_eq_tied (s : Style) (a b : List K) (e : K) :
+    GenEqVec.eq_std_vec eqS s a b e = eqVec s a b e ∧
+    (a.length = b.length → GenEqVec.eq_fvec eqS s a b e = eqFV s a b e) := eqvec_tied s a b e
+
+example : GenEqVec.eq_std_vec eqS .absolute [Dy.mk2 1 0, Dy.mk2 3 (-1)] [Dy.mk2 1 0, Dy.mk2 13 (-3)] (Dy.mk2 1 (-2)) = true ∧
+    GenEqVec.eq_std_vec eqS .absolute [Dy.mk2 1 0, Dy.mk2 3 (-1)] [Dy.mk2 1 0, Dy.mk2 3 (-1), Dy.mk2 0 0] (Dy.mk2 1 (-2)) = false ∧
+    GenEqVec.eq_fvec eqS .relativeStrong [Dy.mk2 1 0, Dy.mk2 3 (-1)] [Dy.mk2 1 0, Dy.mk2 2 0] (Dy.mk2 1 (-3)) = false := by decide
+
+end roundfour_eqvec
+
 section roundfour_vec
 
 /-- **vector round / trunc = the scalar function applied to every component** — `std::vector` and `FieldVector`, every
